@@ -1,9 +1,184 @@
-"""Bounded stand-ins: Kani harnesses and native exhaustive drivers.  Always labelled bounded; never counted as proved."""
+"""Bounded stand-ins: native bounded-exhaustive search and Kani harnesses over the same harness bodies (vk crate).
+Always labelled bounded; never counted as proved."""
+import os
+import re
+import subprocess
+import time
+
+import cex
+
+VERIF = os.path.dirname(os.path.dirname(os.path.abspath(__file__)))
+KANI_DIR = os.path.join(VERIF, "kani")
+ENV = dict(os.environ, CARGO_NET_OFFLINE="true", RUST_BACKTRACE="0")
+
+
+def registry():
+    ok, path, log = cex.build_replay("debug")
+    if not ok:
+        return None, log
+    p = subprocess.run([path, "list"], capture_output=True, text=True, env=ENV)
+    out = []
+    for ln in p.stdout.splitlines():
+        f = ln.split("\t")
+        if len(f) >= 6:
+            out.append(dict(name=f[0], props=f[1].split(","), nargs=int(f[2]), kani=f[3] == "kani=true", panic_ok=f[4] == "panic_ok=true", bound=f[5]))
+    return out, ""
+
+
+def native_search(h, seed, timeout=900, known=()):
+    """Bounded-exhaustive enumeration of the harness's argument domains in both build profiles."""
+    res = dict(harness=h["name"], engine="native bounded-exhaustive enumeration", bound=h["bound"], searched=0, profiles=[], found=None, samples=[], wall_s=0.0)
+    t0 = time.time()
+    for profile in ("debug", "release"):
+        ok, path, log = cex.build_replay(profile)
+        if not ok:
+            res["error"] = "build failed: " + log[-600:]
+            return res
+        try:
+            p = subprocess.run([path, "search", h["name"], str(seed)], capture_output=True, text=True, timeout=timeout, env=dict(ENV, VK_KNOWN="|".join(known)))
+        except subprocess.TimeoutExpired:
+            res["error"] = f"{profile}: search timeout"
+            return res
+        m = re.search(r"SEARCHED (\d+) inputs.*exhaustive=(\w+)", p.stdout)
+        n = int(m.group(1)) if m else 0
+        res["searched"] += n
+        res["profiles"].append(dict(profile=profile, searched=n, exhaustive=(m.group(2) == "true") if m else None))
+        s = re.search(r"SAMPLE (\S+) ([0-9 ]+)", p.stdout)
+        if s and len(res["samples"]) < 2:
+            res["samples"].append(f"{s.group(1)}({s.group(2).strip().replace(' ', ', ')}) [{profile}]")
+        kh = re.search(r"KNOWNHIT (\S+) ([0-9 ]+) :: (.*)", p.stdout)
+        if kh:
+            res.setdefault("known_hits", []).append(kh.group(3).strip())
+        f = re.search(r"FOUND (\S+) ([0-9 ]+)", p.stdout)
+        if f:
+            msg = re.search(r"MESSAGE (.*)", p.stdout)
+            res["found"] = dict(inputs=[int(x) for x in f.group(2).split()], profile=profile, message=msg.group(1).strip() if msg else "")
+            break
+        if p.returncode not in (0, 1):
+            res["error"] = f"{profile}: search exited {p.returncode}: {p.stdout[-200:]}{p.stderr[-200:]}"
+            return res
+    res["wall_s"] = round(time.time() - t0, 2)
+    return res
+
+
+def parse_kani(out):
+    """Split cargo-kani's regular output into per-harness check lists."""
+    res = {}
+    cur = None
+    for block in re.split(r"\n(?=Checking harness )", out):
+        m = re.match(r"Checking harness (\S+?)\.\.\.", block)
+        if not m:
+            continue
+        name = m.group(1).split("::")[-1]
+        checks = []
+        for cm in re.finditer(r"Check \d+: (\S+)\n\s+- Status: (\w+)\n\s+- Description: \"(.*?)\"\n(?:\s+- Location: (.*?)\n)?", block):
+            checks.append(dict(id=cm.group(1), status=cm.group(2), desc=cm.group(3), loc=cm.group(4) or ""))
+        verdict = re.search(r"VERIFICATION:- (\w+)", block)
+        t = re.search(r"Verification Time: ([0-9.]+)s", block)
+        res[name] = dict(checks=checks, verdict=verdict.group(1) if verdict else None, time_s=float(t.group(1)) if t else None,
+                         oom="out of memory" in block.lower() or "std::bad_alloc" in block)
+    return res
+
+
+def kani_run(harnesses, jobs, timeout):
+    if not harnesses:
+        return {}, "", 0.0
+    if not os.path.exists(os.path.join(KANI_DIR, "Cargo.lock")):
+        subprocess.run(["cp", "/repo/Cargo.lock", KANI_DIR])
+    cmd = ["cargo", "kani", "--output-format", "regular"]   # (--jobs would force terse output, which drops per-check status)
+    for h in harnesses:
+        cmd += ["--harness", h]
+    t0 = time.time()
+    try:
+        p = subprocess.run(cmd, cwd=KANI_DIR, capture_output=True, text=True, timeout=timeout, env=ENV)
+        out = p.stdout + p.stderr
+    except subprocess.TimeoutExpired as e:
+        out = (e.stdout or b"").decode(errors="replace") if isinstance(e.stdout, bytes) else (e.stdout or "")
+        out += "\nKANI-TIMEOUT"
+        subprocess.run(["pkill", "-x", "cbmc"])
+    return parse_kani(out), out, time.time() - t0
+
+
+def kani_verdict(h, r):
+    """-> (violations: [marker], undecided: [reason], stats)"""
+    viol, und = [], []
+    if r is None or r.get("verdict") is None:
+        return viol, [f"kani produced no verdict for {h['name']} (timeout / crash / out of memory)"], {}
+    n_fail = n_ok = 0
+    covers = [c for c in r["checks"] if ".cover." in c["id"]]
+    for c in r["checks"]:
+        if c["status"] == "FAILURE":
+            n_fail += 1
+            if "VF:" in c["desc"]:
+                viol.append(c["desc"].strip('"'))
+            elif "unwinding assertion" in c["desc"]:
+                und.append(f"{h['name']}: unwinding bound too small ({c['loc']})")
+            elif not h["panic_ok"] and ("/repo/src" in c["loc"] or "flatcontainer::" in c["loc"]):
+                viol.append(f"panic in code under test: {c['desc']} at {c['loc']}")
+        elif c["status"] == "UNDETERMINED":
+            und.append(f"{h['name']}: undetermined check {c['id']}")
+        elif c["status"] == "SUCCESS":
+            n_ok += 1
+    for c in covers:
+        if c["status"] != "SATISFIED":
+            und.append(f"{h['name']}: cover not satisfied ({c['desc']}) — harness assumptions may be vacuous")
+    return viol, und, dict(checks=len(r["checks"]), success=n_ok, failed=n_fail, covers_satisfied=sum(1 for c in covers if c["status"] == "SATISFIED"), time_s=r.get("time_s"))
 
 
 def run(pid, cfg, tier, seed, repo):
-    report = dict(summary="none", evaluations=0, distinct_nontrivial=0, rule="none", samples=[], harnesses=[])
-    return dict(report=report, violations=[], undecided=[], cmds=[])
+    report = dict(summary="none", evaluations=0, distinct_nontrivial=0, rule="none", samples=[], harnesses=[], label="bounded — stand-in, never counted as proved")
+    out = dict(report=report, violations=[], undecided=[], cmds=[])
+    reg, log = registry()
+    if reg is None:
+        out["undecided"].append("vk crate does not build against the current tree: " + log[-400:])
+        return out
+    mine = [h for h in reg if pid in h["props"] and not (tier == "quick" and h["name"].endswith("_full"))]
+    extra = cfg.get("drivers", [])
+    if not mine and not extra:
+        return out
+    evaluations = distinct = 0
+    # native bounded-exhaustive enumeration: every harness, both profiles
+    for h in mine:
+        r = native_search(h, seed, known=[k[len(f"bounded.{h['name']}#"):] for k in cfg.get("_known_keys", []) if k.startswith(f"bounded.{h['name']}#")])
+        report["harnesses"].append(r)
+        evaluations += r["searched"]
+        distinct += r["searched"]
+        report["samples"] += r["samples"][:1]
+        for msg in dict.fromkeys(r.get("known_hits", [])):
+            for key, what in cfg.get("_known", {}).items():
+                if key.startswith(f"bounded.{h['name']}#") and msg.startswith(key.split("#", 1)[1]):
+                    out.setdefault("known_hits", []).append(what)
+        if r.get("error"):
+            out["undecided"].append(f"{h['name']}: {r['error']}")
+            continue
+        if r["found"]:
+            f = r["found"]
+            rp = cex.replay(h["name"], f["inputs"])
+            out["violations"].append(dict(key=f"bounded.{h['name']}#{f['message'][:80]}", kind="input", harness=h["name"], inputs=f["inputs"], native=rp,
+                                          text=f"bounded harness {h['name']} ({h['bound']}) violated on input {f['inputs']} [{f['profile']} profile]: {f['message']}",
+                                          msg=f["message"]))
+    out["cmds"].append("kani/target/{debug,release}/replay search <harness> (native bounded-exhaustive enumeration)")
+    # Kani: symbolic element values for the harnesses that have a twin
+    ktwins = [h for h in mine if h["kani"]]
+    sel = ktwins if tier == "thorough" else [h for h in ktwins if h["name"] in cfg.get("kani_quick", [])]
+    if sel:
+        res, raw, wall = kani_run([h["name"] for h in sel], jobs=min(8, len(sel)), timeout=1500 if tier == "quick" else 5400)
+        out["cmds"].append("cargo kani --harness " + " --harness ".join(h["name"] for h in sel))
+        for h in sel:
+            viol, und, stats = kani_verdict(h, res.get(h["name"]))
+            report["harnesses"].append(dict(harness=h["name"], engine="kani 0.68 / cbmc 6.11 (bounded: unwinding assertions on)", bound=h["bound"], **stats))
+            evaluations += stats.get("checks", 0)
+            distinct += stats.get("success", 0)
+            out["undecided"] += und
+            for m in viol:
+                # find a concrete input natively (same body), else report without one
+                out["violations"].append(dict(key=f"bounded.{h['name']}#{m[:80]}", kind=None, text=f"kani harness {h['name']}: {m}", msg=m, world=None))
+    report["evaluations"] = evaluations
+    report["distinct_nontrivial"] = distinct
+    report["rule"] = ("native: every combination of the per-argument domains that satisfies the harness precondition is one case (all are non-trivial: each runs the full harness body), in debug and release profiles; "
+                      "kani: one case per checked property of the harness, non-trivial = status SUCCESS")
+    report["summary"] = f"{len(mine)} harnesses, {evaluations} cases" + (f", kani on {len(sel)}" if sel else "")
+    return out
 
 
 def replay_driver(r, path):
